@@ -1,14 +1,19 @@
 package extract
 
-// Gen.Cvss: the table-like parts of the CVSS code that property C18 depends
-// on, regenerated from the current sources:
+// Gen.Cvss: the table-like parts of the CVSS code that properties C18 and C14
+// depend on, regenerated from the current sources on every run:
 //
-//   - toolkit/types/cvss: stringer tables of metric names and valid-value
-//     strings (v2/v3/v4), v2Weights, v3Weights, the v4 macrovector score
-//     table, eqDepth and maxFrag, the case list of QualitativeScore;
-//   - updater/osv/cvss.go: the metric/value/weight switch tables of
-//     fromCVSS3 and fromCVSS2, their ignored-metric lists and their severity
-//     band switches.
+//   - toolkit/types/cvss: metric names and valid-value strings (v2/v3/v4),
+//     v2Weights, v3Weights, the v4 macrovector score table, eqDepth and maxFrag,
+//     the bands of QualitativeScore;
+//   - updater/osv: the metric/value/weight tables of fromCVSS3 and fromCVSS2,
+//     their ignored-metric lists and their severity bands.
+//
+// All of it is EVALUATED (rxcvss.go, probe go/cmd/rxprobe/cvss) except the
+// severity bands of the two osv functions, which are read with the tolerant
+// reader of Gen/Severity (the functions return only a severity, and their score
+// is not on tenths, so the comparison operators cannot be observed).  Key order
+// of the osv tables: rxcvsssnap.go.
 //
 // Strings are emitted as lists of byte values (kernel-friendly), weights as
 // integers scaled by 1000 (`none` for math.NaN()), scores scaled by 10.
